@@ -102,7 +102,7 @@ ASSUMPTIONS = [
     "dense mappings not produced by batchie (e.g. all ids + 1, control becomes 0) are outside the quantifier and not used",
 ]
 
-CHUNK = 400  # screens per work item (~3-4 s)
+CHUNK = 250  # screens per work item (~2-3 s)
 
 
 # ------------------------------------------------------------------ enumeration helpers
